@@ -30,3 +30,42 @@ func verifErr(err error) string {
 	}
 	return err.Error()
 }
+
+// verifBatchID identifies one changes batch on the push path (the slice handed from sendBatchOfChanges to the
+// goroutine running handleChangesResponse is the same one).
+func verifBatchID(changeArray [][]any) string {
+	if len(changeArray) == 0 {
+		return ""
+	}
+	return fmt.Sprintf("%p:%v", changeArray, changeArray[0][0])
+}
+
+// verifChangeSeqs projects the sequences of a changes batch built by sendChanges (SequenceID in column 0).
+func verifChangeSeqs(changeArray [][]any) [][3]uint64 {
+	res := make([][3]uint64, 0, len(changeArray))
+	for _, row := range changeArray {
+		if s, ok := row[0].(SequenceID); ok {
+			res = append(res, [3]uint64{s.LowSeq, s.TriggeredBy, s.Seq})
+		} else {
+			res = append(res, [3]uint64{})
+		}
+	}
+	return res
+}
+
+// verifWanted projects the peer's answer to a changes batch: true = the peer asked for the revision.
+func verifWanted(answer []any, n int) []bool {
+	res := make([]bool, n)
+	for i := 0; i < n && i < len(answer); i++ {
+		_, res[i] = answer[i].([]any)
+	}
+	return res
+}
+
+// verifCollIdx projects a BLIP collection index (-1 = default collection, no index).
+func verifCollIdx(idx *int) int {
+	if idx == nil {
+		return -1
+	}
+	return *idx
+}
